@@ -292,6 +292,17 @@ fn run_case(seed: u64, index: u64, rep: &mut Report, want: &[&str], md: &mut Mod
                         "units": units.iter().map(|u| format!("{:x}:{:x}{}", u.0, u.1, if u.2 { "" } else { "~" })).collect::<Vec<_>>().join(",")}));
                 }
             }
+            // the invariant of the block-level bookkeeping (Crdt/LinkBlocksProofs.v: lkb_flag_entry_invariant, the hypothesis under which
+            // the guard of integrate / delete / split - the `linked` flag - is equivalent to "has an entry in Store::linked_by"): every
+            // entry of linked_by is non-empty and belongs to a block that carries the flag
+            if want.contains(&"C20") {
+                for (id, _len, qs) in vs.links.iter() {
+                    let blk = vs.blocks.iter().flat_map(|(_, bs)| bs.iter()).find_map(|b| match b { yrs::verif::VBlock::Item(i) if i.id == *id => Some(i), _ => None });
+                    rep.add("c20_linked_by_entries_checked_against_the_flag", 1);
+                    match blk { Some(i) if i.linked && !qs.is_empty() => {},
+                        other => rep.disagree(json!({"kind": "a reachable store violates lkb_inv (an entry of linked_by without a flagged block, or an empty entry)", "entry": format!("{:x}:{:x}", id.client.get(), id.clock), "block_found": other.is_some(), "flag": other.map(|i| i.linked), "quotations": qs.len(), "replica": ri, "step": step, "script": script})) }
+                }
+            }
             for (qi, q) in quotes.iter().enumerate() {
                 let w = match m.get(&txn, &q.key) { Some(Out::YWeakLink(w)) => w, _ => continue };
                 rep.add("quote_dereferences", 1);
